@@ -61,7 +61,7 @@ def _pick_fault(rng, case):
     return {'kind': 'flip', 'rel': gc.to_rel(regions, at), 'byte': b}
 
 
-def gen_case(rng, tier):
+def _gen_case(rng, tier):
     B = rng.choice(B_CHOICES) if rng.random() < 0.93 else rng.choice([1, 2])
     st = gc.gen_structure(rng, min(B, 300), max_payload=(400 if tier == 'quick' else 4096),
                           max_chunks=(8 if tier == 'quick' else 12), adv_bytes=gen_bytes)
@@ -115,13 +115,13 @@ def expand_unit(u):
                         yield from emit({'kind': 'flip', 'rel': gc.to_rel(regions, p), 'byte': b}, cut_scheds[:2])
 
 
-def summarise(case):
+def _summarise(case):
     c = dict(case)
     c['chunks'] = [dict(ch, data=(ch['data'][:40] + ('...' if len(ch['data']) > 40 else ''))) for ch in case['chunks']]
     return c
 
 
-def run_case(case):
+def _run_case(case):
     res = new_result()
     log = Log(case.get('_seed'))
     wire0, regions, end_last, payload, max_line = gc.build(case)
@@ -244,7 +244,7 @@ def run_case(case):
     return res
 
 
-def shrink_candidates(case):
+def _shrink_candidates(case):
     chunks = case['chunks']
     fault = case.get('fault')
 
@@ -300,3 +300,32 @@ def shrink_candidates(case):
         yield shrink.with_key(case, 'temp', 'mem')
     if case['via'] != 'direct':
         yield shrink.with_key(case, 'via', 'direct')
+
+
+# ---- concurrent twin runs (sim.twin): a share of the seeded cases is served by 2-3 threads at once --------
+from .. import twin as _twin   # noqa: E402
+
+TWIN_SHARE = 0.06
+
+
+def gen_case(rng, tier):
+    return _twin.maybe_wrap(rng, _gen_case(rng, tier), TWIN_SHARE)
+
+
+def run_case(case):
+    if 'twin' in case:
+        return _twin.run(lambda inner, i: _run_case(inner), case)
+    return _run_case(case)
+
+
+def shrink_candidates(case):
+    if 'twin' in case:
+        yield from _twin.shrink_candidates(case, _shrink_candidates)
+        return
+    yield from _shrink_candidates(case)
+
+
+def summarise(case):
+    if 'twin' in case:
+        return {'twin_of': _summarise(case["twin"]), 'threads': case.get('n', 2), 'plan': case['plan']}
+    return _summarise(case)
